@@ -151,6 +151,11 @@ def run(ctx, rep):
     rep.rule('R03.j', 'the storage lifecycle keeps its steps: load / save / persist / delete / shutdown of segments, partitions, topics, streams and of the system still call each of their confirmed collaborators (readers and writers opened, indexes loaded, consumer offsets and message ids loaded, missing entities re-persisted, buffers flushed at shutdown)', floor=45, analysis='A1 required callees')
     sf.lifecycle_steps(ctx, rep, 'R03.j')
 
+    # ------------------------------------------------------------ R03.k a deleted segment leaves no file behind
+    rep.rule('R03.k', 'Segment::delete removes the log file and the index file of the segment, each exactly once: purge re-creates segment 0 at the same paths and the index writer appends, so a surviving index file puts stale entries in front of the new ones (wrong or empty poll slices, also after a restart)', floor=2, analysis='A9 call-argument forms')
+    from props import storage_forms as sfd_
+    sfd_.segment_delete_files(ctx, rep, 'R03.k')
+
 
 def dir_pairing(ctx, rep, rid):
     import forms as forms_
